@@ -74,8 +74,10 @@ def shapes(level: str) -> list[dict]:
                     continue
                 if route == "gen" and not pe:
                     continue  # the generator always receives the exception
-                for raises in (None, "E", "B"):
+                for raises in (None, "E", "B") + (("S",) if route == "gen" else ()):
                     for nest in (False, True):
+                        if raises == "S" and nest:
+                            continue
                         sh = {"route": route, "mode": mode, "pe": pe, "raises": raises, "nest": nest}
                         if level == "full":
                             out.append(sh)
@@ -221,8 +223,37 @@ class C01(E1Check):
                 if log != want:
                     fails.append(("gen-edge", f"events {log}, expected {want}"))
 
+        async def dup_main() -> None:
+            """the SAME callable registered several times with other callbacks in between: still strict reverse order of registration"""
+            from asphalt.core import Context
+
+            for pass_exc in (False, True):
+                order: list = []
+                counter = {"n": 0}
+
+                def release(*a: Any) -> None:
+                    counter["n"] += 1
+                    order.append(f"A{counter['n']}")
+
+                def other(tag: str):
+                    def cb() -> None:
+                        order.append(tag)
+
+                    return cb
+
+                async with Context() as ctx:
+                    ctx.add_teardown_callback(release, pass_exc)
+                    ctx.add_teardown_callback(other("B"))
+                    ctx.add_teardown_callback(release, pass_exc)
+                    ctx.add_resource(object(), "r1", teardown_callback=other("C"))
+                    ctx.add_resource(object(), "r2", teardown_callback=release) if not pass_exc else ctx.add_teardown_callback(release, pass_exc)
+                    ctx.add_teardown_callback(other("D"))
+                if order != ["D", "A1", "C", "A2", "B", "A3"]:
+                    fails.append(("order", f"one callable registered three times between others: callbacks ran {order}, expected D A C A B A"))
+
         try:
             anyio.run(main)
+            anyio.run(dup_main)
         except BaseException as e:  # noqa: BLE001
             fails.append(("gen-edge", f"scenario raised {e!r}"))
         s = new_summary()
@@ -297,6 +328,9 @@ class C01(E1Check):
                 raise HE(label)
             if spec["raises"] == "B":
                 raise HB(label)
+            if spec["raises"] == "S" and isinstance(st["got_exc"].get(label), BaseException):
+                # the teardown part re-raises the very exception it was handed: that is still a callback that raised
+                raise st["got_exc"][label]
 
         def make_plain(label: str):
             def plain() -> None:
@@ -582,6 +616,13 @@ class C01(E1Check):
                         and all(a is b for a, b in zip([x for x in g.exceptions if not isinstance(x, cancelled)], Lnc))
                         for g in groups(out)
                     )
+            if not ok and env.backend == "trio" and any(isinstance(x, BaseExceptionGroup) for x in L):
+                # (a callback that re-raises a GROUP: trio rebuilds nested groups on the way out, so compare the leaves by identity)
+                def leaves_of(e: BaseException) -> list:
+                    return [y for x in e.exceptions for y in leaves_of(x)] if isinstance(e, BaseExceptionGroup) else [e]
+
+                want = [y for x in L for y in leaves_of(x)]
+                ok = out is not None and any(len(leaves_of(g)) == len(want) and all(a is b for a, b in zip(leaves_of(g), want)) for g in groups(out))
             if not ok:
                 fail("group", f"callbacks raised {L!r} but the caller saw {out!r}")
         else:
